@@ -31,6 +31,10 @@ let unmarshal (c : n list) : tsf outcome =
   | Some None -> Err
   | None -> raise (Oracle_miss "json.Unmarshal")
 
+(* utf8.ValidString and what encoding/json makes of the string *)
+let vline (h : n list) : string =
+  "V\t" ^ (if utf8_valid h then "1" else "0") ^ "\t" ^ hex_of_bytes (coerce_utf8 h)
+
 let show_load r =
   match r with
   | LOk s -> String.concat "\t" ["L"; "ok"; hex_of_bytes s.s_key; hex_of_bytes s.s_hash; hex_of_salt s.s_salt; hex_of_bytes s.s_host]
@@ -73,7 +77,7 @@ let run_history id path kind ops =
          (match do_step (OStore (s, n_of_int (int_of_string mt))) with
           | ObsStore r -> Printf.printf "%s\t%s\t%s\n" id i (show_store !fs p r)
           | _ -> failwith "obs");
-         Printf.printf "%s\t%s.v\tV\t%s\n" id i (if utf8_valid s.s_host then "1" else "0")
+         Printf.printf "%s\t%s.v\t%s\n" id i (vline s.s_host)
        | "L" :: _ ->
          (match do_step OLoad with
           | ObsLoad r -> Printf.printf "%s\t%s\t%s\n" id i (show_load r)
@@ -93,7 +97,9 @@ let run_history id path kind ops =
            (match !fs.files p with
             | Some (c, _) -> Printf.printf "%s\t%s\tG\tok\t%s\n" id i (hex_of_bytes c)
             | None -> Printf.printf "%s\t%s\tG\tok\tno-file\n" id i)
-         else Printf.printf "%s\t%s\tG\terr\n" id i
+         else Printf.printf "%s\t%s\tG\terr\n" id i;
+         Printf.printf "%s\t%s.v\t%s\n" id i (vline s.s_host)
+       | "M" :: _ -> ignore (do_step OScribble); Printf.printf "%s\t%s\t-\n" id i
        | "X" :: c :: mt :: _ ->
          (* the harness can only write the file when its directory exists *)
          if k = DDir then ignore (do_step (OExt (bytes_of_hex c, n_of_int (int_of_string mt))))
@@ -110,7 +116,7 @@ let run_history id path kind ops =
             Printf.printf "%s\t%s\t%s\t|\t%s\n" id i (show_client r) sp
           | _ -> failwith "obs")
        | "V" :: s :: _ ->
-         Printf.printf "%s\t%s\tV\t%s\n" id i (if utf8_valid (bytes_of_hex s) then "1" else "0")
+         Printf.printf "%s\t%s\t%s\n" id i (vline (bytes_of_hex s))
        | _ -> failwith ("unknown op line in case file"));
       incr idx) ops
   with Oracle_miss w -> Printf.printf "%s\t%d\tORACLE-MISS\t%s\n" id !idx w)
